@@ -154,7 +154,8 @@ def run_chunk(job, seed, lo, hi, tier, hashes_prefix=None, keep_hashes=False):
                 "msg": "worker died (%s) during run %d; stderr tail: %s" % (signame, last_run, err[-400:].replace("\n", " | ")),
             })
         cur = last_run + 1
-        if len(res.fails) >= 8:
+        ncrash = sum(1 for d in res.fails if d["class"].startswith("crash."))
+        if len(res.fails) >= 400 or ncrash >= 6:
             break
     return res
 
